@@ -130,3 +130,24 @@ Theorem C12_judge_kdecomp_accepts_exactly_the_specification :
     JudgeComplete2.kdecomp_spec kind p m n M ok both rc1 X1 ro1 co1 fsr fsc rc2 X2 ro2 co2 ssr ssc rcc res.
 Proof. exact JudgeComplete2.judge_kdecomp_iff. Qed.
 Print Assumptions C12_judge_kdecomp_accepts_exactly_the_specification.
+
+(* ---------- the Y-sum is the transposed Delta-sum of the transposed operands (KsumTranspose.v): the two compositions of the model are
+   one construction, and total unimodularity of one result is that of the other ---------- *)
+From Cmr Require KsumTranspose.
+Theorem C12_ysum_is_the_transposed_deltasum : forall p m1 n1 M1 m2 n2 M2 r1a r1b c1 r2a r2b c2,
+  wf_mat m1 n1 M1 = true -> wf_mat m2 n2 M2 = true ->
+  match deltasum p n1 m1 (transpose m1 n1 M1) n2 m2 (transpose m2 n2 M2) c1 r1a r1b c2 r2a r2b with
+  | KOk X => ysum p m1 n1 M1 m2 n2 M2 r1a r1b c1 r2a r2b c2 =
+             KOk (transpose (n1 - 1 + (n2 - 1)) (m1 - 2 + (m2 - 2)) X)
+  | KErr => ysum p m1 n1 M1 m2 n2 M2 r1a r1b c1 r2a r2b c2 = KErr
+  end.
+Proof. exact KsumTranspose.ysum_is_transposed_deltasum. Qed.
+Print Assumptions C12_ysum_is_the_transposed_deltasum.
+
+Theorem C12_ysum_TU_iff_deltasum_TU : forall p m1 n1 M1 m2 n2 M2 r1a r1b c1 r2a r2b c2 M X,
+  wf_mat m1 n1 M1 = true -> wf_mat m2 n2 M2 = true ->
+  ysum p m1 n1 M1 m2 n2 M2 r1a r1b c1 r2a r2b c2 = KOk M ->
+  deltasum p n1 m1 (transpose m1 n1 M1) n2 m2 (transpose m2 n2 M2) c1 r1a r1b c2 r2a r2b = KOk X ->
+  tu_bf (m1 - 2 + (m2 - 2)) (n1 - 1 + (n2 - 1)) M = tu_bf (n1 - 1 + (n2 - 1)) (m1 - 2 + (m2 - 2)) X.
+Proof. exact KsumTranspose.ysum_tu_bf_deltasum. Qed.
+Print Assumptions C12_ysum_TU_iff_deltasum_TU.
